@@ -86,7 +86,13 @@ CLAIMED = {
         "p_value/p_agg/p_elems/p_settings with the fuel p_config provides (ParseWrite.v). C01_second_write: writing "
         "the re-read configuration (same four output attributes) reproduces the text, given that every float is stable "
         "under render-read-render - a per-value hypothesis that is false for the class F1c and is evaluated, not proved; "
-        "C01_roundtrip states both clauses. C01_hypotheses_satisfiable exhibits a configuration meeting every "
+        "C01_roundtrip states both clauses. In fixed notation (the default; scientific notation is an option) that "
+        "hypothesis is a THEOREM (FloatStable.v, C01_float_stable_fixed): for every finite double and every precision, "
+        "when the %f rendering is not cut (<= 60 characters: F1 otherwise), format(strtod(format x)) = format x - the "
+        "grid argument over Z (printf renders the nearest grid point r, strtod returns the double nearest to r by the "
+        "correct-rounding theorems of RoundSpec.v, x is itself a double, so y rounds back to r) - hence "
+        "C01_roundtrip_fixed: both clauses with glibc-exact printf/strtod and NO stability hypothesis when scientific "
+        "notation is off. C01_hypotheses_satisfiable / C01_fixed_hypotheses_satisfiable exhibit a configuration meeting every "
         "hypothesis; C01_refuted_keyword / _g_overflow / _g_denormal / _float_cut evaluate the four excluded classes "
         "on the model. Tie: rtrip "
         "= write, read_string into a second configuration, dump, write again, over API-built and parsed trees x option "
@@ -95,7 +101,7 @@ CLAIMED = {
    note="Known findings F1 (float %f rendering cut at 60 characters), F1b (%g rounds above DBL_MAX), F1c (denormals "
         "unstable under %g), F2 (keyword-named members), F3 (nesting beyond the parser stack) are reported as "
         "KNOWN-FINDING; a case is attributed to them only when every message of that case falls into a recorded class.",
-   technique="Coq proof (class certificates by vm_compute with a soundness proof; inductions over strings and over the tree through scanner and parser) + round-trip correspondence (float stability is a hypothesis, evaluated)",
+   technique="Coq proof (class certificates by vm_compute with a soundness proof; inductions over strings and over the tree through scanner and parser; float render-read-render stability proved for fixed notation by exact grid rounding over Z, a per-value hypothesis only under scientific notation) + round-trip correspondence",
    ref="5 (C01)"),
  "C17": dict(
    text="Coq theorems (Properties_C17.v, closed under the global context) over Cpp.v, the model of lib/libconfigcpp.c++ "
@@ -290,20 +296,33 @@ CLAIMED = {
    technique="Coq proof (ledger invariant by nested induction over the include machine; abort point universally quantified) + event-trace correspondence",
    ref="5 (C11)"),
  "C10": dict(
-   text="PARTIAL. Proved (Properties_C10.v, closed under the global context) about the include-machine model: path "
-        "resolution of the default include function (relative paths joined to the include directory with '/', absolute "
-        "paths and a missing directory leave the path as written) and of multi-path functions; every file is scanned from "
-        "line 1 at beginning-of-line in a buffer of its own and its tokens carry its name; the parser stamps a named "
-        "setting with the file and line of its name token; at the closing quote of a directive: nesting equal to "
-        "MAX_INCLUDE_DEPTH gives 'include file nesting too deep', a missing first target 'cannot open include file' and an "
-        "include-function error its message, each located at the directive (current file, its line) - for every state and "
-        "file system; chains of 10 / 11 levels and a cycle are evaluated on the compiled tables; the ledger/termination "
-        "side is C11. NOT proved: the equivalence with textual inlining (needs scanner compositionality across cut "
-        "points); it is checked on every run: include forests are read through the real library and the model and "
-        "compared with config_read_string of the spliced text, with per-setting provenance checked against the files.",
+   text="Proved (Properties_C10.v, closed under the global context) about the scanner / include-machine model over the "
+        "compiled tables. (a) Path resolution of the default include function (relative paths joined to the include "
+        "directory with '/', absolute paths and a missing directory leave the path as written) and of multi-path "
+        "functions; every file is scanned from line 1 at beginning-of-line in a buffer of its own and its tokens carry its "
+        "name; the parser stamps a named setting with the file and line of its name token; at the closing quote of a "
+        "directive: nesting equal to MAX_INCLUDE_DEPTH gives 'include file nesting too deep', a missing first target "
+        "'cannot open include file' and an include-function error its message, each located at the directive (current "
+        "file, its line) - for every state and file system; chains of 10 / 11 levels and a cycle are evaluated on the "
+        "compiled tables; the ledger/termination side is C11. (b) THE EQUIVALENCE WITH TEXTUAL INLINING at the level of "
+        "the token stream the parser receives (Splice.v): for a directive alone on its line whose target is a complete "
+        "text c (it scans to its end without error with strings and comments terminated and has no directive of its own - "
+        "a closed, computable condition on c alone - and is empty or ends with a line feed), scanning the including text "
+        "yields the same token values in the same order with the same outcome as scanning the text with c spliced in at "
+        "the directive: C10_splice (any buffer, any include depth, any file system) and C10_splice_top (the token stream "
+        "config_read parses). It rests on the compositionality of longest-match scanning across the cut points, proved "
+        "against the compiled automaton by vm_compute certificates with generic soundness lemmas (C10_cut_line_feed: in "
+        "INITIAL and the comment conditions no match looks past a line feed; C10_cut_quote: in STRING/INCLUDE none looks "
+        "past a double quote), the append lemma (C10_append) and the independence of token values from the scanner's "
+        "bookkeeping fields (C10_bookkeeping_irrelevant, mutual induction over depth / files / fuel); C10_splice_example "
+        "evaluates both sides on a file holding a multi-line string, a comment and a number. NOT proved (compared on "
+        "every run instead: include forests read through the real library and the model vs config_read_string of the "
+        "spliced text, with per-setting provenance checked against the files): directives nested inside c, include "
+        "functions returning several files, a directive followed by more text on its line (there the beginning-of-line "
+        "flag genuinely differs), and the lifting through the parser to equal configurations up to recorded lines/files.",
    note="Known finding F13 (KNOWN-FINDING line): a later unopenable path of a multi-path include is reported at the "
         "missing file, not at the directive (C10_later_file_error_refuted).",
-   technique="Coq proof (unfolding the include step under universally quantified state) + vm_compute instances + forest correspondence (partial)",
+   technique="Coq proof (cut-point certificates on the compiled automaton with soundness lemmas, append lemma and bookkeeping irrelevance by induction, splice theorem; include step unfolded under universally quantified state) + vm_compute instances + forest correspondence for nested / multi-file includes",
    ref="5 (C10)"),
  "C02": dict(
    text="Proved (Properties_C02.v, closed under the global context), for the parser model on the scanner's located tokens "
@@ -323,16 +342,22 @@ CLAIMED = {
         "the message of the first offence in reading order (duplicate setting name / mismatched element type) at that "
         "offence's line and file (C02_reject_semantic, C02_read_reject_semantic); (5) underivable token lists are not "
         "accepted; the messages; evaluated examples (a nested derivation with overrides, a duplicate, a mismatch) on "
-        "which the parser is run. NOT proved: that a syntax error is reported at the first token that cannot continue a "
-        "derivation, and fuel sufficiency on syntactically rejected inputs; these are tied on every run by exhaustive "
-        "enumeration of all viable token-kind prefixes (to length 5 quick / 7 thorough) with every one-token invalid "
-        "extension, in several concrete spellings, overrides off/on, against the real library and against a reference "
-        "parser written from the manual.",
+        "which the parser is run; (6) syntax errors (ParseSyntax.v): when the answer is 'syntax error' the error state "
+        "points at a token t of the input, whose line and file are the ones reported, such that the same error at the "
+        "same token is the answer whatever follows t (locality), no derivable text begins with the tokens up to and "
+        "including t, and the tokens before t - and every shorter prefix - extend to an accepted, hence derivable, input: "
+        "t is the FIRST token that cannot continue a derivation (C02_syntax_error_first_offence, "
+        "C02_syntax_error_earlier_viable, C02_derivable_answer; locality, fuel monotonicity and a completion lemma by "
+        "mutual induction over the five parsing functions; totality from ParseTotal.v). What remains a correspondence "
+        "matter is that grammar.c's LALR automaton (with default reductions) reports that same token: tied on every run "
+        "by exhaustive enumeration of all viable token-kind prefixes (to length 5 quick / 7 thorough) with every one-token "
+        "invalid extension, in several concrete spellings, overrides off/on, against the real library and against a "
+        "reference parser written from the manual.",
    note="grammar.c's LALR tables and bison's driver are modelled as a recursive-descent function performing the actions in "
         "bison's order, not translated. Nesting beyond the parser stack limit (YYMAXDEPTH) is outside the theorems "
         "(hypothesis max_nest <= NEST_LIMIT). Known finding F4: a mismatched STRING element is reported at the line of "
         "the following token (the theorem states exactly that position).",
-   technique="Coq proof (grammar as inductive relations and syntax trees; parser soundness, completeness with denotation, and semantic-error characterisation by mutual induction) + exhaustive-bounded correspondence for syntax-error positions",
+   technique="Coq proof (grammar as inductive relations and syntax trees; parser soundness, completeness with denotation, semantic-error characterisation and first-offending-token theorem for syntax errors by mutual induction) + exhaustive-bounded correspondence for syntax-error positions",
    ref="5 (C02)"),
 }
 
